@@ -28,7 +28,7 @@ def enc_check(chunk):
         try:
             a = execnet.dumps(v)
         except Exception as e:  # noqa: BLE001
-            if type(v) is int and abs(v) >= 10**4300:
+            if (type(v) is int and abs(v) >= 10**4300) or "4300" in str(e) or "Exceeds the limit" in str(e):
                 continue
             bad.append(("dumps-exception", srepr(v, 100), type(e).__name__))
             continue
@@ -322,7 +322,10 @@ def run(tier: str, only=None) -> int:
     rep = evidence.Report(PID, tier, "exploration")
     rep.rule.append("every value of the C01 value space: dumps() byte-for-byte against the independent reference encoder; every reference-encoded stream of the legacy (Python-2 dialect) value space under all four coercion settings against the reference decoder; all 256 version bytes; opcode table letter by letter; reconfigure at channel and gateway scope in a virtual session")
     vals = [v for v in value_space(tier)]
-    res = pmap(enc_check, [vals[i::64] for i in range(64)])
+    # ints beyond the interpreter's int<->str digit limit: dumps() may refuse them (known finding of C01),
+    # but whatever it does emit must be format 2 (decimal text)
+    huge = [x for h in E.HUGE_INTS for x in (h, [h], {"k": (h,)})]
+    res = pmap(enc_check, [vals[i::64] for i in range(64)] + [huge])
     bads = [b for _, bs in res for b in bs]
     rep.add_enumeration("encode-bytes", sum(n for n, _ in res), sum(1 for v in vals if isinstance(v, (list, tuple, dict, set, frozenset))))
     for kind, vr, detail in bads[:3]:
